@@ -142,4 +142,98 @@ example : treeSearch exRawTree "/b/" = some (3, [("y", "b")]) := by decide
 example : treeSearch exRawTree "a" = none := by decide
 example : matchesRaw ["a"] (toksOf "/a/") := Or.inr ⟨["a"], by decide, by decide⟩
 
+/-! ### round 5: which stored route a raw hit names -/
+
+theorem hit_binds (k t : String) (x : H × Params) (ks0 ts : List String) (hx : x.2 = (binds ks0 ts).reverse) :
+    (hit k t x).1 = x.1 ∧ (hit k t x).2 = (binds (k :: ks0) (t :: ts)).reverse := by
+  unfold hit
+  cases hv : isVar k <;> simp [binds, hv, hx]
+
+/-- **Which route a raw hit names** (any iteration order): a successful `next` on raw elements returns the item stored
+under a key that matches them — segment by segment, or without the last empty element — together with exactly the
+segments that key binds (in `addParam` order). -/
+theorem next_raw_hit (toks : List String) : toks ≠ [] → ∀ (n : Node), WF n → ∀ h ps, next toks n = some (h, ps) →
+    ∃ ks, lookupW ks n = some h ∧
+      ((matchesP ks toks = true ∧ ps = (binds ks toks).reverse) ∨
+       (∃ ts, toks = ts ++ [""] ∧ matchesP ks ts = true ∧ ps = (binds ks ts).reverse)) := by
+  induction toks with
+  | nil => intro h; exact absurd rfl h
+  | cons t rest ih =>
+    intro _ n hwf h ps hs
+    cases rest with
+    | nil =>
+      by_cases h0 : t = "" ∧ n.item.isSome = true
+      · obtain ⟨rfl, hi⟩ := h0
+        obtain ⟨x, hx⟩ := Option.isSome_iff_exists.mp hi
+        simp [next, hx] at hs
+        obtain ⟨rfl, rfl⟩ := hs
+        exact ⟨[], by simpa [lookupW] using hx, Or.inr ⟨[], rfl, by simp [matchesP], by simp [binds]⟩⟩
+      · have hn : next [t] n = forEach n fun k c =>
+            if matchTok k t then c.item.map (fun h => hit k t (h, [])) else none := by
+          simp only [next]
+          rw [if_neg (by simpa using h0)]
+        rw [hn] at hs
+        have key : ∃ kc, (kc ∈ n.lits ∨ kc ∈ n.vars) ∧
+            (if matchTok kc.1 t then kc.2.item.map (fun h => hit kc.1 t (h, [])) else none) = some (h, ps) := by
+          rcases forEach_some hs with ⟨kc, hm, hp⟩ | ⟨_, kc, hm, hp⟩
+          · exact ⟨kc, Or.inl hm, hp⟩
+          · exact ⟨kc, Or.inr hm, hp⟩
+        obtain ⟨kc, hm, hp⟩ := key
+        by_cases hmt : matchTok kc.1 t = true
+        · rw [if_pos hmt] at hp
+          cases hci : kc.2.item with
+          | none => rw [hci] at hp; cases hp
+          | some x =>
+            rw [hci] at hp
+            simp only [Option.map_some, Option.some.injEq] at hp
+            obtain ⟨e1, e2⟩ := hit_binds kc.1 t (x, []) [] [] (by simp [binds])
+            rw [hp] at e1 e2
+            refine ⟨[kc.1], ?_, Or.inl ⟨by simp [matchesP, hmt], e2⟩⟩
+            simp only at e1
+            simp [lookupW, child_of_mem hwf hm, hci, e1]
+        · rw [if_neg hmt] at hp; cases hp
+    | cons r rs =>
+      rw [next_cons_cons] at hs
+      have key : ∃ kc, (kc ∈ n.lits ∨ kc ∈ n.vars) ∧
+          (if matchTok kc.1 t then (next (r :: rs) kc.2).map (hit kc.1 t) else none) = some (h, ps) := by
+        rcases forEach_some hs with ⟨kc, hm, hp⟩ | ⟨_, kc, hm, hp⟩
+        · exact ⟨kc, Or.inl hm, hp⟩
+        · exact ⟨kc, Or.inr hm, hp⟩
+      obtain ⟨kc, hm, hp⟩ := key
+      by_cases hmt : matchTok kc.1 t = true
+      · rw [if_pos hmt] at hp
+        cases hnx : next (r :: rs) kc.2 with
+        | none => rw [hnx] at hp; cases hp
+        | some x =>
+          rw [hnx] at hp
+          simp only [Option.map_some, Option.some.injEq] at hp
+          have hc := child_of_mem hwf hm
+          obtain ⟨ks0, hl0, hd⟩ := ih (by simp) kc.2 (child_wf hwf hc) x.1 x.2 hnx
+          rcases hd with ⟨hm0, hb0⟩ | ⟨ts, hts, hm0, hb0⟩
+          · obtain ⟨e1, e2⟩ := hit_binds kc.1 t x ks0 (r :: rs) hb0
+            rw [hp] at e1 e2
+            simp only at e1 e2
+            exact ⟨kc.1 :: ks0, by simp [lookupW, hc, hl0, e1], Or.inl ⟨by simp [matchesP, hmt, hm0], e2⟩⟩
+          · obtain ⟨e1, e2⟩ := hit_binds kc.1 t x ks0 ts hb0
+            rw [hp] at e1 e2
+            simp only at e1 e2
+            exact ⟨kc.1 :: ks0, by simp [lookupW, hc, hl0, e1],
+              Or.inr ⟨t :: ts, by rw [hts]; rfl, by simp [matchesP, hmt, hm0], e2⟩⟩
+      · rw [if_neg hmt] at hp; cases hp
+
+/-- **`Tree.Search` with an arbitrary string names a matching stored route with exactly its bound segments.** -/
+theorem tree_search_raw_hit (root : Node) (hwf : WF root) (route : String) (h : H) (ps : Params)
+    (hs : treeSearch root route = some (h, ps)) :
+    rooted route = true ∧ ∃ ks, lookupW ks root = some h ∧
+      ((matchesP ks (toksOf route) = true ∧ ps = (binds ks (toksOf route)).reverse) ∨
+       (∃ ts, toksOf route = ts ++ [""] ∧ matchesP ks ts = true ∧ ps = (binds ks ts).reverse)) := by
+  unfold treeSearch at hs
+  cases hr : rooted route with
+  | false => simp [hr] at hs
+  | true =>
+    simp only [hr, Bool.not_true, Bool.false_eq_true, if_false] at hs
+    exact ⟨rfl, next_raw_hit _ (toksOf_ne_nil route) root hwf h ps hs⟩
+
+example : treeSearch exRawTree "/a//c" = some (2, [("x", "")]) ∧ lookupW ["a", ":x", "c"] exRawTree = some 2 := by decide
+
 end GoZero.C09
